@@ -121,6 +121,8 @@ def run_variants(variants: List[Dict[str, Any]], repo_root: str, jobs: int = 0) 
 def run_for_property(prop: str, repo_root: str) -> Tuple[Dict[str, Any], List[str]]:
     t0 = time.time()
     variants = [v for v in corpus.VARIANTS if v["prop"] == prop]
+    if os.environ.get("SA_SELFTEST_SKIP"):  # developer convenience: e.g. SA_SELFTEST_SKIP=refac- while working on the hand-written corpus
+        variants = [v for v in variants if not v["id"].startswith(tuple(os.environ["SA_SELFTEST_SKIP"].split(",")))]
     results = run_variants(variants, repo_root)
     errors = []
     by = {v["id"]: v for v in variants}
